@@ -157,6 +157,12 @@ pub fn dp_composed(tier: Tier) -> Vec<DpQuery> {
         if !has_agg {
             continue;
         }
+        // C01 / C09 decide the aggregation at the TOP of the program: projections, filters and joins stacked on a
+        // released aggregate are post-processing (their flows are C02's subject) and their columns are not aggregates
+        // of the protected rows any more
+        if !top_is_agg {
+            continue;
+        }
         if tier == Tier::Quick {
             let inner_ok = ["P2(", "P7(", "A3(", "A4(", "A5(", "A10(", "D2(", "O1("].iter().any(|w| inner.starts_with(w)) && (inner.contains("(users)") || inner.contains("(orders)"))
                 || (inner.starts_with("J.inner.eq.s2(") || inner.starts_with("J.left.eq.s2(")) && (inner.contains("(users, orders)") || inner.contains("(orders, users)"));
@@ -586,6 +592,13 @@ pub fn run(ctx: &Ctx, which: Which) -> Report {
     for ((q, _name, _dp), outcome) in work.iter().zip(outcomes.into_iter()) {
         {
             match outcome {
+                CompileOutcome::Ok(c) if which != Which::C03 && c.features.iter().any(|f| f == "join.over-reduce") => {
+                    // a join over an aggregating sub-query: the sub-query is released by its own mechanism (every public
+                    // key, empty groups included) and joined as public data; what the outer aggregate should equal /
+                    // which literal calibrates which noise is not decided here
+                    head.add_count("not_decided(join over an aggregating sub-query)", 1);
+                    let _ = c;
+                }
                 CompileOutcome::Ok(c) => {
                     head.add_count("configs_accepted", 1);
                     for t in &q.tags {
